@@ -24,11 +24,17 @@ func Harness_C04name(arg int) {
 	symAssume(c04IdentOK(r2))
 	i1 := symInt("i1", 1, 999)
 	i2 := symInt("i2", 1, 999)
-	b1 := &builder{ruleName: r1}
-	b2 := &builder{ruleName: r2}
+	nl := symBool("nolint")
+	b1 := &builder{ruleName: r1, nolint: nl}
+	b2 := &builder{ruleName: r2, nolint: nl}
 	f1 := b1.funcName(i1)
 	f2 := b2.funcName(i2)
 	same := symAnd(symEqual(r1, r2), i1 == i2)
-	symAssert(symOr(symNot(symEqual(f1, f2)), same), "C04: two different (rule, expression index) pairs get the same method name")
+	if l1 != l2 {
+		// the only way two names of different length can meet on the unchanged tree: the longer one ends in digits (finding F4)
+		symAssert(symOr(symNot(symEqual(f1, f2)), same), "C04: two different (rule, expression index) pairs get the same method name (rule names of different length: a name that ends in digits)")
+	} else {
+		symAssert(symOr(symNot(symEqual(f1, f2)), same), "C04: two different (rule, expression index) pairs get the same method name (rule names of equal length)")
+	}
 	symReach("end")
 }
